@@ -56,7 +56,7 @@ def query_points(rng, d, n):
 
 class Check(PropertyCheck):
     id = 'C01'
-    lean_targets = ['RegionsVerif.Props.C01', 'RegionsVerif.Props.C01Poly', 'RegionsVerif.Bridge.FormulasC01']
+    lean_targets = ['RegionsVerif.Props.C01', 'RegionsVerif.Props.C01Poly', 'RegionsVerif.Props.C01Cyclic', 'RegionsVerif.Bridge.FormulasC01']
     namespaces = ['RegionsVerif.Props.C01', 'RegionsVerif.Bridge.C01']
     rule = ('every shape class x sizes 1e-3..1e6 x centres to 1e6 x any angle in deg/rad/arcmin/hourangle x include flag in '
             '{absent, True, False, 1, 0} x query coordinates scalar / 0-length / 1-D / N-D (C-, Fortran-ordered, transposed and strided views), int or float; query points on a '
@@ -67,7 +67,7 @@ class Check(PropertyCheck):
                    'numpy element-wise comparison keeps the array shape']
     validated_only = ['"even-odd = inside" for arbitrary simple polygons (no Jordan curve theorem): decided by the differential '
                       'run against an independent exact-rational crossing-number oracle; proved: division-free crossing test, '
-                      'edge symmetry, translation invariance, axis rectangles, confinement to the vertex range, parity of straddling edges']
+                      'edge symmetry, translation invariance, independence of the starting vertex and of the direction of traversal, axis rectangles, confinement to the vertex range, parity of straddling edges']
 
     def translate(self):
         # tie T: regenerate Gen/FormulasC01.lean from the current source (tools/py2lean.py)
